@@ -228,6 +228,7 @@ def model (line : String) : String :=
     match hexNat w with
     | some w => if w = 0 then "bad-op" else toString (log10Go ieee w)
     | none => "bad-op"
+  | ["conc64", _, _] => "ok"   -- long numerals converted by many goroutines at once: the answers of a lone caller
   | ["f64", num] =>
     let cs := num.toList
     match parse (cs.map Char.toNat).toArray with
@@ -261,6 +262,8 @@ def spec (line ans : String) : String :=
         else (rne 1 (5 ^ (32 * i)) 0).toBits
       if b = want then "holds" else s!"fails table {name}[{i}] is {ans}, correctly rounded power of five is {bitsStr want}"
     | _, _ => if ans == "none" then "skip" else "fails bad-answer"
+  | ["conc64", _, _] =>
+    if ans == "ok" then "holds" else s!"fails conversion-depends-on-concurrent-callers {ans}"
   | ["f64", num] =>
     let cs := num.toList
     match readNumeral cs with
